@@ -329,4 +329,4 @@ def replay(ctx, c):
 
 def run(ctx):
     q = ctx.tier == "quick"
-    hyp_run(ctx, "invocations", case(), lambda c: check(ctx, c), 400 if q else 8000)
+    hyp_run(ctx, "invocations", case(), lambda c: check(ctx, c), 800 if q else 8000)
